@@ -5,6 +5,7 @@ import (
 	"encoding/binary"
 	"encoding/gob"
 	"fmt"
+	"math"
 	"reflect"
 	"sync"
 	"time"
@@ -1004,6 +1005,13 @@ type Model struct {
 	ModifiedBy       string   // UID of the modifier, who modified the treasure
 	ExpirationTime   int64    // the unix time for time type ordering. This field should be empty, but useful if we want to create a message queue
 	FileName         *string  // the current file name pointer. Pointer because we don't want to store the file name in the database
+	// ContentKind is written by ConvertToByte only. gob omits zero-valued fields, so a
+	// typed zero value (0, "", false, empty bytes/slice) arrives with a nil pointer and
+	// would read back as void; LoadFromByte uses ContentKind to restore it. Old records
+	// have ContentKind == ContentTypeVoid and load exactly as before.
+	ContentKind ContentType
+	// NegZero: the float content is -0.0 (gob treats it as zero and drops the sign too).
+	NegZero bool
 }
 
 type treasure struct {
@@ -1563,7 +1571,13 @@ func (t *treasure) ConvertToByte(guardID guard.ID) ([]byte, error) {
 
 	var buf bytes.Buffer
 	encoder := gob.NewEncoder(&buf)
-	err := encoder.Encode(t.treasure)
+	model := t.treasure
+	model.ContentKind = t.GetContentType()
+	if c := model.Content; c != nil {
+		model.NegZero = (c.Float32 != nil && *c.Float32 == 0 && math.Signbit(float64(*c.Float32))) ||
+			(c.Float64 != nil && *c.Float64 == 0 && math.Signbit(*c.Float64))
+	}
+	err := encoder.Encode(model)
 	if err != nil {
 		return nil, err
 	}
@@ -1586,9 +1600,89 @@ func (t *treasure) LoadFromByte(guardID guard.ID, b []byte, fileName string) err
 	if err != nil {
 		return err
 	}
+	t.restoreZeroContent()
 	// filenév beállítása
 	t.treasure.FileName = &fileName
 	return nil
+}
+
+// restoreZeroContent re-creates the typed zero value that gob dropped on the
+// way to disk (see Model.ContentKind).
+func (t *treasure) restoreZeroContent() {
+	kind := t.treasure.ContentKind
+	negZero := t.treasure.NegZero
+	t.treasure.ContentKind, t.treasure.NegZero = ContentTypeVoid, false
+	if kind == ContentTypeVoid {
+		return
+	}
+	if t.treasure.Content == nil {
+		t.treasure.Content = &Content{}
+	}
+	c := t.treasure.Content
+	switch kind {
+	case ContentTypeUint8:
+		if c.Uint8 == nil {
+			c.Uint8 = new(uint8)
+		}
+	case ContentTypeUint16:
+		if c.Uint16 == nil {
+			c.Uint16 = new(uint16)
+		}
+	case ContentTypeUint32:
+		if c.Uint32 == nil {
+			c.Uint32 = new(uint32)
+		}
+	case ContentTypeUint64:
+		if c.Uint64 == nil {
+			c.Uint64 = new(uint64)
+		}
+	case ContentTypeInt8:
+		if c.Int8 == nil {
+			c.Int8 = new(int8)
+		}
+	case ContentTypeInt16:
+		if c.Int16 == nil {
+			c.Int16 = new(int16)
+		}
+	case ContentTypeInt32:
+		if c.Int32 == nil {
+			c.Int32 = new(int32)
+		}
+	case ContentTypeInt64:
+		if c.Int64 == nil {
+			c.Int64 = new(int64)
+		}
+	case ContentTypeFloat32:
+		if c.Float32 == nil {
+			c.Float32 = new(float32)
+			if negZero {
+				*c.Float32 = float32(math.Copysign(0, -1))
+			}
+		}
+	case ContentTypeFloat64:
+		if c.Float64 == nil {
+			c.Float64 = new(float64)
+			if negZero {
+				*c.Float64 = math.Copysign(0, -1)
+			}
+		}
+	case ContentTypeString:
+		if c.String == nil {
+			c.String = new(string)
+		}
+	case ContentTypeBoolean:
+		if c.Boolean == nil {
+			c.Boolean = new(bool)
+		}
+	case ContentTypeByteArray:
+		if c.ByteArray == nil {
+			c.ByteArray = []byte{}
+		}
+	case ContentTypeUint32Slice:
+		if c.Uint32Slice == nil {
+			c.Uint32Slice = new(Uint32Slice)
+		}
+	}
 }
 
 func (t *treasure) SetContentVoid(guardID guard.ID) {
